@@ -32,6 +32,7 @@
 
 
 #include "ElemVariable.hpp"
+#include "StylesheetConstructionContext.hpp"
 #include "StylesheetExecutionContext.hpp"
 
 
@@ -561,6 +562,9 @@ VariablesStack::popElementFrame()
     const VariableStackStackType::size_type     nElems = m_stack.size();
     assert(nElems > 0);
 
+    // The element whose frame is popped.
+    const ElemTemplateElement*  theFrameElement = 0;
+
     // There is guaranteed to be a context marker at
     // the bottom of the stack, so i should stop at
     // 1.
@@ -579,6 +583,8 @@ VariablesStack::popElementFrame()
         }
         else if (theEntry.getType() == StackEntry::eElementFrameMarker)
         {
+            theFrameElement = theEntry.getElement();
+
 #if defined(XALAN_DEBUG)
             const ElemTemplateElement* const    theElement =
                 theEntry.getElement();
@@ -605,6 +611,18 @@ VariablesStack::popElementFrame()
 
             break;
         }
+    }
+
+    // The frame of a template instance is gone: the xsl:param elements of that
+    // instance may have activated params passed by the invoking
+    // xsl:apply-templates or xsl:call-template.  They are still on the stack,
+    // because xsl:apply-templates keeps them for the template it instantiates
+    // for the next node, and that template must only see the ones its own
+    // xsl:param elements ask for.
+    if (theFrameElement != 0 &&
+        theFrameElement->getXSLToken() == StylesheetConstructionContext::ELEMNAME_TEMPLATE)
+    {
+        resetParams();
     }
 }
 
